@@ -11,3 +11,24 @@ package root
 //@ use casketfile/contracts_verif.go:dispenser_api
 //@ use @verif/specs/stdlib.spec:stdlib
 //@ use @verif/specs/stdlib.spec:casket_api
+
+//@ unit root_as_written frames=on props=C02 filter=`root\.setupRoot$`
+//@ // The site root is stored exactly as the Casketfile gives it (a path that is a symbolic link stays that path): the hiding
+//@ // of the Casketfile compares the root and the Casketfile's location as written (httpserver.hideCasketfile, run right
+//@ // after this directive), and the file server resolves the root per request.
+//@ use casketfile/contracts_verif.go:dispenser_api
+//@ extern github.com/tmpim/casket/caskethttp/httpserver.GetConfig
+//@   pure
+//@   ensures result != nil
+//@ extern os.Lstat
+//@ extern os.Stat
+//@ extern os.IsNotExist
+//@ extern invoke:(io/fs.FileInfo).Mode
+//@ extern log.Printf
+//@ define cfg() *httpserver.SiteConfig = httpserver.GetConfig(c)
+//@ define isTok(s string) bool = exists(t, 0, len(c.Dispenser.tokens), c.Dispenser.tokens[t].Text == s)
+//@ func setupRoot
+//@   requires c != nil && c.Dispenser.cursor >= 0
+//@   modifies Dispenser.cursor, SiteConfig.Root
+//@   ensures [root_stored_as_written] result == nil ==> (cfg().Root == old(cfg().Root) || isTok(cfg().Root))
+//@   loop 1 invariant c.Dispenser.cursor >= 0 && config == cfg() && (config.Root == old(cfg().Root) || isTok(config.Root))
